@@ -33,6 +33,9 @@ def make_scenario(mod, prop, seed, i, tier) -> dict:
         sc["argform"] = rng.choice(ARGFORMS)
     if getattr(mod, "VARY_KNOBS", False):  # drawn after everything else, for the same reason
         sc["knobs"] = rng.choice([None, None, None, 257, 1000, 4099])
+    if getattr(mod, "VARY_WRITE_CAP", False):
+        # W4: a raw data write transfers at most this many bytes per call (sim.disk.SimFileIO.write)
+        sc["write_cap"] = rng.choice([None, None, None, 1, 3, 7, 64, 1000])
     sc.update({"property": prop, "seed": seed, "run": i, "format": 1})
     return sc
 
